@@ -29,6 +29,7 @@ def check(tree, rep, tier='quick', seed=0):
     R.k7_missing_key_raises(core, rep)
     R.k11_input_gate(core, rep)          # 'or it aborts with an error (... an invalid input)'
     l1_access(tree, rep)
+    R.k32_solve_single_exit(core, rep)   # an answered input reaches its lines: the loop is never left with met dependencies undrained
     rep.floor('core functions modelled', len(core.funcs), 120)
     R.k24_tracker_shape(core, rep, parts=('a', 'b'))
     R.k24e_waiters_only_tracker_mutates(core, rep)
